@@ -105,7 +105,8 @@ impl JsonReq {
 #[derive(Clone, Debug)]
 pub struct QueryReq {
     pub query: String,
-    /// "from_query" (direct call) or "from_request" (through a request URI)
+    /// "from_query" (direct call), "from_request" (through a request URI) or "from_request_rewritten" (second
+    /// extraction from a request object whose URI was rewritten after a first extraction)
     pub via: &'static str,
     pub class: String,
 }
@@ -277,6 +278,34 @@ fn wrong_kind(old: &Value, r: &mut Rng) -> Value {
 /// a document that is well-formed JSON but (most likely) not a valid `target`
 pub fn illtyped_doc(target: &str, r: &mut Rng) -> (Value, &'static str) {
     let mut v = valid_doc(if target == "Value" { "Doc" } else { target }, r);
+    // a rejection whose message is long (the offending value is quoted in it): 9..40 KiB
+    if r.chance(1, 25) {
+        let n = 2000 + r.below(6000);
+        let big = match r.below(3) {
+            0 => Value::Array((0..n).map(|i| json!(i)).collect()),
+            1 => Value::String("x".repeat(5 * n)),
+            _ => {
+                let mut m = serde_json::Map::new();
+                m.insert("k".repeat(5 * n), json!(1));
+                Value::Object(m)
+            }
+        };
+        // at the root when that is a wrong kind for the target, otherwise under an unknown key / wrong member
+        let root_ok = matches!((&v, &big), (Value::Array(_), Value::Array(_)) | (Value::Object(_), Value::Object(_)));
+        if !root_ok {
+            return (big, "huge_offender");
+        }
+        match &mut v {
+            Value::Array(a) => a.push(Value::String("y".repeat(5 * n))),
+            Value::Object(m) => {
+                if let Some(k) = m.keys().next().cloned() {
+                    m.insert(k, Value::Array((0..n).map(|i| json!([i])).collect()));
+                }
+            }
+            _ => {}
+        }
+        return (v, "huge_offender");
+    }
     let nmut = 1 + r.below(3);
     let mut label = "wrong_kind";
     for _ in 0..nmut {
@@ -744,6 +773,10 @@ pub fn gen_query_req(r: &mut Rng) -> QueryReq {
         }
         _ => (edges(r), "edges"),
     };
-    let via = if r.chance(1, 2) { "from_query" } else { "from_request" };
+    let via = match r.below(5) {
+        0 | 1 => "from_query",
+        2 | 3 => "from_request",
+        _ => "from_request_rewritten",
+    };
     QueryReq { query, via, class: class.to_string() }
 }
